@@ -21,7 +21,7 @@ PID = "C12"
 def run(tier):
     R = common.Run(PID, "proof", tier)
     R.assume("A1", "A2", "A3")
-    R.assume("event handling and dense-output bookkeeping inside integrate() are outside this contract (events None, dense output off in the symbolic runs); they are exercised by the bounded native family only")
+    R.assume("faults inside the event block and the dense-output bookkeeping on failure are verified for one terminal event with dense output kept, both directions (exceptional post-condition: one piece per recorded step); other event configurations through the bounded native fault-injection family")
     R.assume("'finite' is a floating-point statement (bounded native clause); user callables are arbitrary: they may raise Exception subclasses or KeyboardInterrupt at any call")
     R.trust("z3", "pyvc executor (try/except/else/finally, exception class matching incl. the symbolic 'any user exception')")
     src = source.load_all()
